@@ -6,6 +6,7 @@ from .common import TRUSTED, Ctx
 
 def check(rep):
     ctx = Ctx(rep)
+    ER.rule_no_module_iterators(ctx, rid="C01.NO-ONE-SHOT-CONSTANTS")
     ER.rule_random_guarded(ctx)
     ER.rule_no_entropy(ctx)
     ER.rule_union_order_stable(ctx)
